@@ -19,6 +19,7 @@ pub fn def() -> PropDef {
 fn streams() -> Vec<Stream> {
     vec![
         Stream { name: "scenarios", count: (30_000, 1_200_000), exhaustive: false, run: |c, r, _| scenario(c, r, Focus::default(), c06_monitor) },
+        Stream { name: "scenarios-tuned-change", count: (24_000, 800_000), exhaustive: false, run: |c, r, _| scenario_tuned(c, r, Focus { coin_select: 3, ..Focus::default() }, c06_monitor) },
         Stream { name: "scenarios-witness-mix", count: (20_000, 600_000), exhaustive: false, run: mix },
     ]
 }
